@@ -1,14 +1,17 @@
 /-
 Model-side driver of the `trace` line protocol (C14, C16).  Reads cases on stdin:
 
-  graph <caseid> [key=value …]
+  graph <caseid> [key=value …]                                   steer=<k>:<s|S|f|F>,… = steering policy of the gate controller per try block
+                                                                 (s/S: selected handler held until finally started/closed, f/F: finally held)
   task <id> <role> d=<depth> x=<ctx> w=<ids|-> b=<cmds|->       role: top | child:<p>:<i> | tbody:<y> | hsucc:<y> | hfail:<y> | hfin:<y>
                                                                  cmds: p | g | f | s<c> | y<k>   (g = gated probe = p for the monitor)
   try <k> owner=<p>:<i> body=<b> succ=<id|-> fail=<id|-> fin=<id|->
   top <ids|->
   <seq> sub|acc|rej <t> | fetch <t> <i> | cmd <t> <i> | ret <t> <i> ok|err | done <t> ok|fail | mwait ok|err|hang
-        | fin <t> ok|fail|hang | root ok|err | panic             (the implementation's events, sequence numbered)
-  sim <seed> <maxsteps>                                          (instead of events: run the Lean MODEL under a pseudo-random schedule)
+        | fin <t> ok|fail|hang | root ok|err | hacc <h> | hrej <h> | stall <h> | panic
+                                                                 (the implementation's events, sequence numbered)
+  sim <seed> <maxsteps>                                          (instead of events: run the Lean MODEL under a pseudo-random schedule,
+                                                                  with the steering policy of the graph line if there is one)
   end
 
 and prints one line per case: `accept` or `reject <seq> <reason>` (seq 0 = the graph itself, last+1 = the
@@ -89,10 +92,14 @@ def parseEv (ws : List String) : Option Ev :=
   | ["mwait", f] => (okFlag f).map .mwait
   | ["fin", t, f] => do some (.fin (← t.toNat?) (← okFlag f))
   | ["root", f] => (okFlag f).map .root
+  | ["hacc", t] => t.toNat?.map .hacc
+  | ["hrej", t] => t.toNat?.map .hrej
+  | ["stall", t] => t.toNat?.map .stall
   | _ => none
 
 def evTask : Ev → Option Nat
   | .sub t | .acc t | .rej t | .cmd t _ | .fetch t _ | .ret t _ _ | .done t _ | .fin t _ => some t
+  | .hacc t | .hrej t | .stall t => some t
   | _ => none
 
 /-! ### Diagnostics: which clause of `Ok` an event violates (unverified, only names the reason) -/
@@ -127,8 +134,9 @@ def whyClosed (g : Graph) (pre : List Ev) (t : Nat) : String :=
       | some (.spawn _) => "closed-before-nested-task"
       | some (.try_ y) =>
         if ¬ hasDone pre (g.tryd y).body then "closed-before-try-body"
-        else if (g.handlers y).any (fun h => decide (Ev.cmd h 0 ∈ pre ∧ ¬ hasDone pre h)) then "closed-before-handler"
-        else "selected-handler-never-ran"
+        else if (g.handlers y).any (fun h => decide ((Ev.cmd h 0 ∈ pre ∨ (Ev.hacc h ∈ pre ∧ ¬ acceptedAfterCause g pre h)) ∧ ¬ hasDone pre h)) then "closed-before-handler"
+        else if (selected g pre y).any (fun h => decide (¬ handlerFate g pre y h ∧ Ev.hacc h ∈ pre)) then "selected-handler-never-ran"
+        else "selected-handler-never-submitted"
       | _ => "closed-before-children"
 
 def why (g : Graph) (pre : List Ev) : Ev → String
@@ -167,6 +175,35 @@ def why (g : Graph) (pre : List Ev) : Ev → String
   | .root ok =>
     if ¬ hasMwait pre then "report-before-manager-wait"
     else if ok then "root-ok-although-root-context-failed" else "root-error-although-no-task-of-the-root-context-failed"
+  | .hacc h =>
+    if ¬ isHandler g h then "handler-submission-of-non-handler" else whyStart g pre h
+  | .hrej h =>
+    if ¬ isHandler g h then "handler-submission-of-non-handler"
+    else if ¬ submitted g pre h then whyStart g pre h
+    else "handler-refused-without-cause-in-root-context"
+  | .stall t =>
+    if ¬ isHandler g t then "stall-of-non-handler"
+    else "handler-start-stalled-without-prior-cause"
+
+/-! ### Steering policy of a case (`steer=` on the graph line) -/
+
+def parseSteer1 (s : String) : Option (Nat × Steer) :=
+  match s.splitOn ":" with
+  | [k, m] => do
+    let k ← k.toNat?
+    let m ← if m = "s" then some (Steer.holdSel false) else if m = "S" then some (Steer.holdSel true)
+            else if m = "f" then some (Steer.holdFin false) else if m = "F" then some (Steer.holdFin true)
+            else if m = "-" then some Steer.free else none
+    some (k, m)
+  | _ => none
+
+def parseSteer (s : String) : Option (List (Nat × Steer)) :=
+  if s = "-" || s = "" then some [] else (s.splitOn ",").mapM parseSteer1
+
+def polOf (l : List (Nat × Steer)) (y : Nat) : Steer :=
+  match l.find? (fun p => p.1 == y) with
+  | some p => p.2
+  | none => .free
 
 /-! ### Pseudo-random schedules for `sim` -/
 
@@ -182,13 +219,13 @@ def labelOf (g : Graph) (r : Nat) : Label :=
   else if x ≤ n + k then .tryg (x - n - 1)
   else .stop (x - n - k - 1)
 
-def simulate (g : Graph) (seed fuel : Nat) : St := Id.run do
+def simulate (g : Graph) (pol : Nat → Steer) (seed fuel : Nat) : St := Id.run do
   let mut s := init
   let mut r := lcg (seed + 12345)
   for _ in [0:fuel] do
     if s.mp == .finished then break
     r := lcg r
-    s := (sys g).next s (labelOf g r)
+    s := (sysS g pol).next s (labelOf g r)
   return s
 
 /-! ### Case processing -/
@@ -201,6 +238,7 @@ structure Case where
   bad : Option (Nat × String) := none  -- first line-level problem
   sims : Array (Nat × Nat) := #[]
   lastSeq : Nat := 0
+  steer : List (Nat × Steer) := []
 
 def Case.graph (c : Case) : Option Graph :=
   let okIds := (c.tasks.toList.zipIdx.all fun ((id, _), k) => id == k) &&
@@ -218,7 +256,7 @@ def verdict (c : Case) : List String :=
   | some g =>
     if ¬ wf g then ["reject 0 malformed-graph"] else
     let simLines := c.sims.toList.map fun (seed, fuel) =>
-      let s := simulate g seed fuel
+      let s := simulate g (polOf c.steer) seed fuel
       match firstBad g [] s.tr with
       | none => s!"sim accept events={s.tr.length} complete={s.mp == .finished}"
       | some (pos, e) => s!"sim reject {pos} {why g (s.tr.take pos) e}"
@@ -292,7 +330,14 @@ partial def loop (inp out : IO.FS.Stream) (cur : Option Case) : IO Unit := do
     match cur with
     | some c => for l in verdict (c.setBad (c.lastSeq + 1) "trace-truncated") do out.putStrLn l
     | none => pure ()
-    loop inp out (some {})
+    let ws := (line.splitOn " ").filter (· ≠ "")
+    let st := match ws.filterMap (fun w => afterEq w "steer") with
+      | [v] => parseSteer v
+      | [] => some []
+      | _ => none
+    match st with
+    | some l => loop inp out (some { steer := l })
+    | none => loop inp out (some (({} : Case).setBad 0 "malformed-graph"))
   else if line = "end" then
     match cur with
     | some c => for l in verdict c do out.putStrLn l
